@@ -38,7 +38,7 @@ SELFTEST = [("good_private", None), ("bad_shared_cell", "RaceFree"), ("bad_carri
 
 TIERS = {
     "quick": dict(
-        threads=[1, 2, 4, 16], budget={1: None, 2: 14000, 4: 6000, 16: 3000}, repeat_big=2,
+        threads=[1, 2, 4, 16, 402, 8001], budget={1: None, 2: 14000, 4: 6000, 16: 3000, 402: 3000, 8001: 2000}, repeat_big=2,
         prange=dict(cmax={"n_samples": 3, "n_features": 2, "*": 2}, threads=3, salts=[1]),
         selftest=["good_private", "bad_shared_cell", "bad_carried_scalar", "bad_transposed"],
         vals=[dict(MinR=0, MaxR=3, MinF=1, MaxF=1, V=2), dict(MinR=0, MaxR=2, MinF=2, MaxF=2, V=1),
@@ -55,7 +55,8 @@ TIERS = {
                                                                     XRanks=[1, 2, 3], YRanks=[0, 1, 2], DWs=["same", "wider", "narrower"],
                                                                     DataMode="zero", MinR=2, MaxR=2, MinF=2, MaxF=2, V=1))]),
     "thorough": dict(
-        threads=[1, 2, 3, 4, 8, 16], budget={1: None, 2: 150000, 3: 60000, 4: 60000, 8: 30000, 16: 20000}, repeat_big=20,
+        threads=[1, 2, 3, 4, 8, 16, 402, 401, 1603, 8001],
+        budget={1: None, 2: 150000, 3: 60000, 4: 60000, 8: 30000, 16: 20000, 402: 20000, 401: 10000, 1603: 10000, 8001: 10000}, repeat_big=20,
         prange=dict(cmax={"n_samples": 3, "n_features": 3, "*": 2}, threads=3, salts=[1, 2]),
         selftest=[k for k, _ in SELFTEST],
         vals=[dict(MinR=0, MaxR=4, MinF=1, MaxF=1, V=2), dict(MinR=0, MaxR=2, MinF=2, MaxF=2, V=1),
@@ -102,11 +103,24 @@ def named_coverage(r, module_file):
     return cov
 
 
+def omp_env(t):
+    """thread configurations: t < 100 is OMP_NUM_THREADS = t with a team of exactly that size; 100 a + b (402, 1603) asks
+    for a threads under OMP_THREAD_LIMIT = b, so the team the runtime grants is SMALLER than omp_get_max_threads();
+    8001 is 8 threads with OMP_DYNAMIC=true (the runtime chooses the team size by load)"""
+    if t == 8001:
+        return dict(OMP_NUM_THREADS="8", OMP_DYNAMIC="true")
+    if t >= 100:
+        return dict(OMP_NUM_THREADS=str(t // 100), OMP_THREAD_LIMIT=str(t % 100), OMP_DYNAMIC="false")
+    return dict(OMP_NUM_THREADS=str(t), OMP_DYNAMIC="false")
+
+
 def run_worker(build, job, threads, d, tag):
     jobf, resf = os.path.join(d, "job_%s.json" % tag), os.path.join(d, "res_%s.json" % tag)
     with open(jobf, "w") as fh:
         json.dump(job, fh)
-    env = dict(os.environ, OMP_NUM_THREADS=str(threads), OMP_WAIT_POLICY="passive", OMP_DYNAMIC="false", PYTHONPATH="")
+    env = dict(os.environ, OMP_WAIT_POLICY="passive", PYTHONPATH="")
+    env.pop("OMP_THREAD_LIMIT", None)
+    env.update(omp_env(threads))
     p = subprocess.run([core.PY, os.path.join(core.VERIF, "harness", "dist_worker.py"), build, jobf, resf],
                        stdout=subprocess.PIPE, stderr=subprocess.PIPE, text=True, env=env, timeout=6000)
     if p.returncode < 0:
@@ -208,13 +222,21 @@ def run(ctx):
     pconst = dict(Table="<- TableDef", Arrays="<- ArraysDef", ClassMax="<- ClassMaxDef", ClassMin="<- ClassMinDef",
                   MaxThreads=str(pr["threads"]), Salts=S(pr["salts"]))
     tables = {}
+    unmodelled = {}
     for src, names, tag in ((selfmod, tier["selftest"], "self"), (mod, KERNELS, "libdist")):
         for k in names:
             mname = "MC_Prange_%s_%s" % (tag, k)
             try:
                 txt, classes, kinfo = pa.tla_module(src, k, mname, pr["cmax"])
             except pa.ExtractError as ex:
-                raise core.MachineryError("cannot build the access model of %s: %s" % (k, ex))
+                if tag == "self":
+                    raise core.MachineryError("cannot build the access model of %s: %s" % (k, ex))
+                # the kernel is no longer written as prange loops over rows the access model understands: schedule
+                # independence is then decided by the replay alone (every thread configuration against one thread)
+                unmodelled[k] = str(ex)
+                print("C13 note: %s is outside the access model of Prange.tla (%s); schedule independence of this kernel rests on "
+                      "the replay under the thread configurations only" % (k, ex))
+                continue
             with open(os.path.join(d, mname + ".tla"), "w") as fh:
                 fh.write(txt)
             core.write_cfg(os.path.join(d, mname + ".cfg"), constants=pconst, invariants=PRANGE_INVS)
@@ -225,6 +247,7 @@ def run(ctx):
                              java_opts=("-XX:ParallelGCThreads=2", "-Xmx3g")))
             meta.append(("prange", tag, k))
     ctx.notes["access_tables_extracted"] = tables
+    ctx.notes["kernels_outside_the_access_model"] = unmodelled
 
     # ---- Dist.tla: machine runs and emitters ---------------------------------------------------------------------
     for n, (label, kw) in enumerate(tier["machine"]):
@@ -378,7 +401,7 @@ def run(ctx):
                     ref[(ci, gi)] = dg
                 elif (ci, gi) in ref and ref[(ci, gi)] != dg:
                     ctx.violation({"kind": "replay", "case": c, "cfg": g, "threads": t, "what": "bits differ from the single-threaded run",
-                                   "how": "same call, OMP_NUM_THREADS=1 vs %d" % t},
+                                   "how": "same call, OMP_NUM_THREADS=1 vs %s" % omp_env(t)},
                                   key="%s/threads-differ/%s" % (site_of(g), input_class(g)))
     ctx.notes["calls_per_thread_count"] = per_thread
     ctx.notes["exception_types_seen"] = seen_err
